@@ -191,7 +191,341 @@ def plan_C18(ctx):
                   props_judged={"C18"})
 
 
-PLANS = {"C01": plan_C01, "C02": plan_C02, "C04": plan_C04, "C18": plan_C18}
+# ------------------------------------------------------------------ gradients: C05, C06
+GRAD_NS = {3: (1, 2, 3, 5, 10), 5: (1, 2, 3, 4, 6), 7: (1, 2, 3, 4, 5)}     # 2sN <= 40: exact dense oracle
+
+
+def upstream(r, order, n, dim, kind):
+    s2 = order + 1
+    rows = s2 * n
+    if kind == "dense":
+        return [[r.dyadic(-4, 4, 4) for _ in range(dim)] for _ in range(rows)], [r.dyadic(-4, 4, 4) for _ in range(n)]
+    if kind == "real":
+        return [[r.uniform(-10, 10) for _ in range(dim)] for _ in range(rows)], [r.uniform(-10, 10) for _ in range(n)]
+    if kind == "sparse":
+        g = [[0.0] * dim for _ in range(rows)]
+        for _ in range(3):
+            g[r.randrange(rows)][r.randrange(dim)] = r.dyadic(-4, 4, 4)
+        return g, [0.0] * n
+    if kind == "zero":
+        return [[0.0] * dim for _ in range(rows)], [0.0] * n
+    if kind == "timeonly":
+        return [[0.0] * dim for _ in range(rows)], [r.dyadic(-4, 4, 4) for _ in range(n)]
+    raise ValueError(kind)
+
+
+def prop_cmd(obj, gc, gt, via="ret"):
+    return {"op": "prop", "obj": obj, "gdC": gen.hm(gc), "gdT": gen.hv(gt), "via": via}
+
+
+def grad_execs(ctx, r, nrep, with_props=True, with_energy_grads=True):
+    execs = []
+    for rep in range(nrep):
+        for order in gen.ORDERS:
+            for n in GRAD_NS[order]:
+                for dim in (1, 2, 3, 4, 5):
+                    # arbitrary-double durations only for small systems: the exact inverse of a 40x40 matrix with 53-bit entries
+                    # has entries thousands of digits long; larger systems use durations on the dyadic grid (multiples of 1/16)
+                    small = (order + 1) * n <= 16
+                    pr = r.problem(order, dim, n, dcls=r.choice(["grid", "real"]), dyadic=None if small else True)
+                    cmds = [{"op": "reset"}, gen.build_cmd(1, pr, r.choice(["ctor_durs", "upd_durs", "ctor_pts"]) if small else r.choice(["ctor_durs", "upd_durs"]), 6)]
+                    if with_energy_grads:
+                        cmds += [{"op": "epartial", "obj": 1}, {"op": "epartial", "obj": 1, "via": "ref"},
+                                 {"op": "egrad", "obj": 1}, {"op": "egrad", "obj": 1, "via": "ref"}, {"op": "egrad", "obj": 1, "via": "parts"},
+                                 {"op": "prop_epartial", "obj": 1}]
+                    if with_props:
+                        rows = (order + 1) * n
+                        ups = []
+                        if n <= 2 and dim <= 2:
+                            for rr in range(rows):          # every unit vector of the coefficient gradient
+                                for c in range(dim):
+                                    g = [[0.0] * dim for _ in range(rows)]
+                                    g[rr][c] = 1.0
+                                    ups.append((g, [0.0] * n))
+                            for i in range(n):              # ... and of the duration gradient
+                                ups.append(([[0.0] * dim for _ in range(rows)], [1.0 if j == i else 0.0 for j in range(n)]))
+                        kinds = ["dense", "dense", "real", "sparse", "sparse", "zero", "timeonly"]
+                        ups += [upstream(r, order, n, dim, k) for k in kinds]
+                        first = ups[-7]
+                        for q, (g, t) in enumerate(ups):
+                            cmds.append(prop_cmd(1, g, t, "ref" if q % 2 else "ret"))
+                        cmds.append(prop_cmd(1, first[0], first[1]))     # repeated call after others: independent of earlier calls
+                        if with_energy_grads:
+                            cmds.append({"op": "egrad", "obj": 1})       # read-only queries do not disturb each other
+                    execs.append((len(cmds) * n * dim + 10, cmds))
+    return execs
+
+
+def plan_grad(ctx, props, with_props, with_eg, rule):
+    selftest_rat(ctx)
+    mc_splinemath(ctx)
+    exe = vbuild.spline_replay()
+    r = gen.Rng(ctx.seed * 1000003 + sum(map(ord, ctx.prop)))
+    execs = grad_execs(ctx, r, 1 if ctx.quick() else 12, with_props, with_eg)
+    batches = balanced(execs, 32 if ctx.quick() else 96)
+    env = {"VJ_GRAD": "1"}
+    ctx.family, ctx.tracespec, ctx.env_flags = "spline", "TraceSpline", env
+    ctx.samples = sample_of(batches)
+    replay_and_validate(ctx, exe, batches, "TraceSpline", env)
+    return finish(ctx, "model_checking", rule, TRUSTED,
+                  ["durations in W (DESIGN s4), at most 40 unknowns so that the exact dense adjoint is available",
+                   "gradient tolerance 1e-6 * S_k with S_k = sum_j |J_jk||g_j| from the exact Jacobian"], props_judged=props)
+
+
+def plan_C05(ctx):
+    return plan_grad(ctx, {"C05"}, True, False,
+                     "3 orders x 5 segment counts (N=1, N=2 always) x dimensions 1..5 (both septic branches); upstream gradients: every unit "
+                     "vector for N<=2, D<=2, plus dense dyadic, dense real, sparse, zero, duration-only; both overloads; one repeated call; each "
+                     "result compared entry-wise with the exact transpose-Jacobian product (implicit differentiation of the defining equations)")
+
+
+def plan_C06(ctx):
+    return plan_grad(ctx, {"C06"}, False, True,
+                     "as C05; getEnergyPartialGradByCoeffs/Times against exact partials of the energy integral of the published coefficients; "
+                     "getEnergyGrad (three access routes) and propagation of the partials against the exact total derivative of the energy")
+
+
+# ------------------------------------------------------------------ C13: dimensions are independent
+def sub_problem(pr, j):
+    q = dict(pr)
+    q["dim"] = 1
+    q["P"] = [[row[j]] for row in pr["P"]]
+    q["bc"] = {k: [v[j]] for k, v in pr["bc"].items()}
+    return q
+
+
+def perm_problem(pr, perm):
+    q = dict(pr)
+    q["P"] = [[row[p] for p in perm] for row in pr["P"]]
+    q["bc"] = {k: [v[p] for p in perm] for k, v in pr["bc"].items()}
+    return q
+
+
+def plan_C13(ctx):
+    selftest_rat(ctx)
+    mc_splinemath(ctx)
+    exe = vbuild.spline_replay()
+    r = gen.Rng(ctx.seed * 1000003 + 13)
+    execs = []
+    for rep in range(1 if ctx.quick() else 20):
+        for order in gen.ORDERS:
+            for dim in range(1, 11):
+                n = (1, 2, 3, 4)[(dim + rep + order) % 4] if rep < 4 else r.choice([1, 2, 3, 4, 5])
+                pr = r.problem(order, dim, n, dcls=r.choice(["grid", "real"]), dyadic=None if (order + 1) * n <= 16 else True)
+                gc, gt = upstream(r, order, n, dim, "dense")
+                cmds = [{"op": "reset"}, gen.build_cmd(1, pr, "ctor_durs", 6), {"op": "energy", "obj": 1}, {"op": "egrad", "obj": 1},
+                        prop_cmd(1, gc, gt)]
+                parts = []
+                for j in range(dim):
+                    oid = 10 + j
+                    parts.append(oid)
+                    cmds += [gen.build_cmd(oid, sub_problem(pr, j), "ctor_durs", 6), {"op": "energy", "obj": oid}, {"op": "egrad", "obj": oid},
+                             prop_cmd(oid, [[row[j]] for row in gc], gt if j == 0 else [0.0] * n),
+                             {"op": "note", "what": "coord", "a": 1, "b": oid, "j": j + 1}]
+                cmds.append({"op": "note", "what": "sum", "a": 1, "parts": parts})
+                perm = list(range(dim))
+                r.shuffle(perm)
+                cmds += [gen.build_cmd(2, perm_problem(pr, perm), "ctor_durs", 6), {"op": "energy", "obj": 2},
+                         {"op": "note", "what": "perm", "a": 1, "b": 2, "perm": [p + 1 for p in perm]}]
+                execs.append((n * dim * (order + 1) * 3, cmds))
+    batches = balanced(execs, 30 if ctx.quick() else 96)
+    env = {"VJ_MIN": "1", "VJ_GRAD": "1"}
+    ctx.family, ctx.tracespec, ctx.env_flags = "spline", "TraceSpline", env
+    ctx.samples = sample_of(batches)
+    replay_and_validate(ctx, exe, batches, "TraceSpline", env)
+    return finish(ctx, "model_checking",
+                  "every order x dimension 1..10: the D-dimensional object, its D one-dimensional coordinate problems and a coordinate "
+                  "permutation in one execution; the D-dimensional recording is validated against the per-coordinate exact oracle "
+                  "(coefficients, energy, energy gradient, propagation) and compared coordinate-wise with the 1-D recordings",
+                  TRUSTED, ["durations in W; at most 40 unknowns per coordinate problem"],
+                  props_judged={"C13", "C01", "C02", "C04", "C05", "C06"})
+
+
+# ------------------------------------------------------------------ C14: metamorphic laws
+def plan_C14(ctx):
+    selftest_rat(ctx)
+    mc_splinemath(ctx)
+    exe = vbuild.spline_replay()
+    r = gen.Rng(ctx.seed * 1000003 + 14)
+    execs = []
+
+    def obj_cmds(oid, pr):
+        return [gen.build_cmd(oid, pr, "ctor_durs", 6), {"op": "energy", "obj": oid}, {"op": "egrad", "obj": oid}]
+    for rep in range(1 if ctx.quick() else 20):
+        for order in gen.ORDERS:
+            for n in (1, 2, 3, 4):
+                for dim in (1, 2, 3):
+                    small = (order + 1) * n <= 16
+                    pr = r.problem(order, dim, n, dcls=r.choice(["grid", "real"]), dyadic=None if small else True)
+                    gm = math.exp(sum(math.log(t) for t in pr["T"]) / n)
+                    cmds = [{"op": "reset"}] + obj_cmds(1, pr)
+                    # shift
+                    dt = r.choice([1.5, -2.25, 1e6, 0.1])
+                    q = dict(pr); q["t0"] = pr["t0"] + dt
+                    dt = q["t0"] - pr["t0"]
+                    cmds += obj_cmds(2, q) + [{"op": "note", "what": "xform", "kind": "shift", "a": 1, "b": 2, "dt": gen.hx(dt)}]
+                    # translate
+                    v = [r.choice([r.dyadic(-8, 8, 8), r.uniform(-100, 100)]) for _ in range(dim)]
+                    q = dict(pr); q["P"] = [[x + v[c] for c, x in enumerate(row)] for row in pr["P"]]
+                    v_eff = [q["P"][0][c] - pr["P"][0][c] for c in range(dim)]
+                    cmds += obj_cmds(3, q) + [{"op": "note", "what": "xform", "kind": "translate", "a": 1, "b": 3, "v": gen.hv(v_eff)}]
+                    # scale space
+                    f = r.choice([2.0, 0.25, 3.0, 1.0 / 3.0, -1.0])
+                    q = dict(pr); q["P"] = [[x * f for x in row] for row in pr["P"]]; q["bc"] = {k: [x * f for x in vv] for k, vv in pr["bc"].items()}
+                    cmds += obj_cmds(4, q) + [{"op": "note", "what": "xform", "kind": "scale", "a": 1, "b": 4, "f": gen.hx(f)}]
+                    # scale time (stay inside W: keep the geometric mean within [0.11, 9])
+                    f = r.choice([2.0, 0.5, 3.0, 1.0 / 3.0] if small else [2.0, 0.5])
+                    if not (0.11 <= gm * f <= 9.0):
+                        f = 1.0 / f
+                    q = dict(pr); q["T"] = [t * f for t in pr["T"]]
+                    q["bc"] = {k: [x / f ** {"v": 1, "a": 2, "j": 3}[k[1]] for x in vv] for k, vv in pr["bc"].items()}
+                    cmds += obj_cmds(5, q) + [{"op": "note", "what": "xform", "kind": "tscale", "a": 1, "b": 5, "f": gen.hx(f)}]
+                    # reverse
+                    q = dict(pr); q["T"] = pr["T"][::-1]; q["P"] = pr["P"][::-1]
+                    sg = {"v": -1.0, "a": 1.0, "j": -1.0}
+                    q["bc"] = {("s" if k[0] == "e" else "e") + k[1]: [sg[k[1]] * x for x in vv] for k, vv in pr["bc"].items()}
+                    cmds += obj_cmds(6, q) + [{"op": "note", "what": "xform", "kind": "reverse", "a": 1, "b": 6}]
+                    execs.append((n * dim * (order + 1) * 6, cmds))
+    batches = balanced(execs, 32 if ctx.quick() else 96)
+    env = {"VJ_MIN": "1", "VJ_GRAD": "1"}
+    ctx.family, ctx.tracespec, ctx.env_flags = "spline", "TraceSpline", env
+    ctx.samples = sample_of(batches)
+    replay_and_validate(ctx, exe, batches, "TraceSpline", env)
+    return finish(ctx, "model_checking",
+                  "3 orders x N 1..4 x dimension 1..3: a problem and its five transforms (start-time shift, translation, space scaling incl. "
+                  "non-powers of two and -1, time scaling, time reversal) in one execution; shift: identical coefficient/energy/gradient bits; "
+                  "others: recordings compared with the transform of the original recording, and each recording with its own exact minimiser, "
+                  "energy and exact energy gradient; the transformation laws themselves are TLC theorems on the grid (MCSplineMath!Metamorphic)",
+                  TRUSTED, ["durations in W"], props_judged={"C14", "C02", "C04", "C06"})
+
+
+# ------------------------------------------------------------------ C10: results depend only on the latest inputs
+C10_DIM = {3: 2, 5: 3, 7: 4}
+
+
+def mcobj_cfg(order, maxops, emit, broken="none", sizes="{1, 2, 3}"):
+    return ("SPECIFICATION Spec\nCONSTANTS\n  Ids = {1, 2}\n  Sizes = %s\n  Variants = {1, 2}\n  Order = %d\n  MaxOps = %d\n"
+            "  Emit = %s\n  Broken = \"%s\"\nINVARIANT Inv\nCONSTRAINT EmitScripts\nVIEW View\nCHECK_DEADLOCK FALSE\n"
+            % (sizes, order, maxops, "TRUE" if emit else "FALSE", broken))
+
+
+def run_mc_text(ctx, module, cfg_text, name, **kw):
+    cfg = "_mc_%s_%d.cfg" % (name, os.getpid())
+    open(os.path.join(vbuild.VERIF, "spec", cfg), "w").write(cfg_text)
+    try:
+        r = run_mc(ctx, module, cfg, **kw)
+        r["cfg"] = name
+        if kw.get("expect_violation"):
+            r["expect_violation"] = True
+    finally:
+        os.remove(os.path.join(vbuild.VERIF, "spec", cfg))
+    return r
+
+
+class ProbTable:
+    """deterministic problem data per (order, size, variant): the same abstract problem is the same concrete problem in every script"""
+    def __init__(self, seed):
+        self.seed, self.t = seed, {}
+
+    def get(self, order, n, v):
+        k = (order, n, v)
+        if k not in self.t:
+            r = gen.Rng(self.seed * 7919 + order * 1000 + n * 10 + v)
+            pr = r.problem(order, C10_DIM[order], n, tdom="any" if v == 2 else "W", dcls=r.choice(["grid", "real"]))
+            gc, gt = upstream(r, order, n, C10_DIM[order], "dense")
+            self.t[k] = (pr, gc, gt)
+        return self.t[k]
+
+
+def expand_spline_script(tab, order, hist):
+    """abstract history from MCSplineObj -> concrete commands, followed by an observation suffix on every live object"""
+    cmds = [{"op": "reset"}]
+    cur = {}
+    for a in hist:
+        op = a["op"]
+        if op == "build":
+            pr, gc, gt = tab.get(order, a["n"], a["v"])
+            cmds.append(gen.build_cmd(a["obj"], pr, a["how"], 6))
+            cur[a["obj"]] = (a["n"], a["v"])
+        elif op in ("copy", "assign"):
+            cmds.append({"op": op, "dst": a["dst"], "src": a["src"]})
+            cur[a["dst"]] = cur[a["src"]]
+        else:
+            cmds += query_cmds(tab, order, a["obj"], cur[a["obj"]], [op])
+    for oid in sorted(cur):
+        cmds += query_cmds(tab, order, oid, cur[oid], ["state", "energy", "egrad", "epartial", "prop", "eval", "knots"])
+    return cmds
+
+
+def query_cmds(tab, order, oid, nv, kinds):
+    pr, gc, gt = tab.get(order, nv[0], nv[1])
+    out = []
+    for k in kinds:
+        if k == "prop":
+            out.append(prop_cmd(oid, gc, gt))
+        elif k == "eval":
+            out.append({"op": "eval", "obj": oid, "t": gen.hx(pr["t0"] + 0.37 * sum(pr["T"])), "d": 1})
+        else:
+            out.append({"op": k, "obj": oid})
+    return out
+
+
+def plan_C10(ctx):
+    selftest_rat(ctx)
+    depth = 3 if ctx.quick() else 4
+    for order in (3, 5):      # the block solvers (quintic, septic) share one cache discipline in the model
+        run_mc_text(ctx, "MCSplineObj", mcobj_cfg(order, depth, False), "MCSplineObj(order=%d,depth=%d)" % (order, depth + 1), workers=8, heap="8g")
+    for order, broken in ((3, "noresize"), (5, "readcache"), (5, "keepderiv")):
+        run_mc_text(ctx, "MCSplineObj", mcobj_cfg(order, 3, False, broken), "broken twin %s (order %d)" % (broken, order), workers=4, expect_violation=True)
+    exe = vbuild.spline_replay()
+    r = gen.Rng(ctx.seed * 1000003 + 10)
+    tab = ProbTable(ctx.seed)
+    execs = []
+    nsample = 500 if ctx.quick() else 8000
+    for order in gen.ORDERS:
+        scripts = tlc_generate_spline(ctx, order)
+        # keep every script class (last action) represented: sample evenly per class
+        groups = {}
+        for h in scripts:
+            last = h[-1]
+            groups.setdefault((last["op"], last.get("how", ""), len(h)), []).append(h)
+        per = max(1, nsample // max(1, len(groups)))
+        chosen = []
+        for g in sorted(groups):
+            hs = groups[g]
+            r.shuffle(hs)
+            chosen += hs[:per]
+        for h in chosen:
+            cmds = expand_spline_script(tab, order, h)
+            execs.append((len(cmds) * (order + 1), cmds))
+    batches = balanced(execs, 32 if ctx.quick() else 96)
+    env = {"VJ_KEEPMEMO": "1"}
+    ctx.family, ctx.tracespec, ctx.env_flags = "spline", "TraceSpline", env
+    ctx.samples = [b[:4] for b in batches[:2]]
+    replay_and_validate(ctx, exe, batches, "TraceSpline", env)
+    return finish(ctx, "model_checking",
+                  "TLC explores the life cycle of spline objects (2 objects, sizes 1..3, 2 data variants, both overloads, all query kinds, copy, "
+                  "assign) to depth %d with the factor caches modelled entry by entry (ReadsFresh) and rejects three broken twins; one script per "
+                  "transition of the abstract graph is generated, a class-balanced seeded sample is expanded with concrete data (variant 2 = "
+                  "arbitrary positive durations) and an observation suffix, replayed on all three orders, and every observation must carry the "
+                  "same bits as every other observation with the same inputs (memo kept across executions)" % (depth + 1),
+                  TRUSTED, ["bit identity between observations of one binary built -O2 -ffp-contract=off"],
+                  props_judged={"C10", "C05", "C11"})
+
+
+def tlc_generate_spline(ctx, order):
+    from vcheck import tlc_generate
+    mo = 5 if order == 7 else order
+    key = "gen_o%d" % mo
+    if not hasattr(ctx, "_gen"):
+        ctx._gen = {}
+    if key not in ctx._gen:
+        ctx._gen[key] = tlc_generate(ctx, "MCSplineObj", mcobj_cfg(mo, 2, True), "splineobj_o%d" % mo)
+    return ctx._gen[key]
+
+
+PLANS = {"C01": plan_C01, "C02": plan_C02, "C04": plan_C04, "C05": plan_C05, "C06": plan_C06, "C10": plan_C10,
+         "C13": plan_C13, "C14": plan_C14, "C18": plan_C18}
 
 
 def replay(prop, path, seed):
